@@ -306,6 +306,13 @@ ClashTerms ==
   \* nested quantifiers: the OUTER variable used outside and inside the nested quantifier at incompatible types
   \cup {Qn("forall", "i", d, Bn("and", Bn(">", VarR("@i"), NumA("0")), Qn("exists", "j", Own("ys"), Bn("and", Bn(">", VarR("@j"), NumA("0")), use)))) :
             d \in {Own("xs"), Fld(VarR("@A"), "xs")}, use \in {Bn("=", VarR("@i"), StrA("$s")), VarR("@i"), Bn("=", Fld(VarR("@i"), "name"), StrA("$s"))}}
+  \* the variable of a LITERAL domain used at a disjoint type only inside the condition of a nested quantifier
+  \cup {Qn(q, "i", SetOf(<<StrA("$s"), StrA("$t")>>), Qn(q2, "j", Own("ys"), b)) : q \in {"forall", "exists"}, q2 \in {"forall", "exists"},
+            b \in {Bn(">", VarR("@j"), VarR("@i")), Bn("and", Bn(">", VarR("@j"), NumA("0")), Bn("<", VarR("@i"), NumA("1")))}}
+  \cup {Qn(q, "i", d, Qn(q2, "j", Own("ys"), b)) : q \in {"forall", "exists"}, q2 \in {"forall", "exists"},
+            d \in {Rng("[", NumA("1"), NumA("3"), "]"), SetOf(<<NumA("1"), NumA("2")>>)},
+            b \in {Bn("and", Bn(">", VarR("@j"), NumA("0")), VarR("@i")), Bn(">", Fld(VarR("@i"), "w"), VarR("@j")),
+                   Bn("or", Bn("=", VarR("@i"), StrA("$s")), Bn(">", VarR("@j"), NumA("0")))}}
   \* top level of a predicate is not boolean
   \cup {Bn("+", Own("x"), NumA("1")), NumA("1"), StrA("$s"), SetOf(<<NumA("1"), NumA("2")>>), Call("abs", Own("x")),
         Rng("[", NumA("1"), NumA("2"), "]"), Un("-", Own("x")), Call("len", Own("xs"))}
